@@ -176,6 +176,12 @@ func (c *regexpSimplifyChecker) walk(e syntax.Expr) {
 			out.WriteString("*")
 			c.score++
 		case "{0}":
+			if hasCapture(e.Args[0]) {
+				// Dropping the expression would change the capture groups numbering.
+				c.walk(e.Args[0])
+				out.WriteString(rep)
+				break
+			}
 			// Maybe {0} should be reported by another check, regexpLint?
 			c.score++
 		case "{1}":
@@ -336,11 +342,26 @@ func (c *regexpSimplifyChecker) canMerge(x, y syntax.Expr) bool {
 		return false
 	}
 	switch x.Op {
-	case syntax.OpChar, syntax.OpCharClass, syntax.OpEscapeMeta, syntax.OpEscapeChar, syntax.OpNegCharClass, syntax.OpGroup:
+	case syntax.OpChar, syntax.OpCharClass, syntax.OpEscapeMeta, syntax.OpEscapeChar, syntax.OpNegCharClass:
 		return x.Value == y.Value
+	case syntax.OpGroup:
+		// Two copies of a capturing group are two groups.
+		return x.Value == y.Value && !hasCapture(x)
 	default:
 		return false
 	}
+}
+
+func hasCapture(e syntax.Expr) bool {
+	if e.Op == syntax.OpCapture || e.Op == syntax.OpNamedCapture {
+		return true
+	}
+	for _, a := range e.Args {
+		if hasCapture(a) {
+			return true
+		}
+	}
+	return false
 }
 
 func (c *regexpSimplifyChecker) canCombine(x, y syntax.Expr) (threshold int, ok bool) {
@@ -366,8 +387,12 @@ func (c *regexpSimplifyChecker) canCombine(x, y syntax.Expr) (threshold int, ok 
 			return 2, true
 		}
 
-	case syntax.OpCharClass, syntax.OpNegCharClass, syntax.OpGroup:
+	case syntax.OpCharClass, syntax.OpNegCharClass:
 		if x.Value == y.Value {
+			return 1, true
+		}
+	case syntax.OpGroup:
+		if x.Value == y.Value && !hasCapture(x) {
 			return 1, true
 		}
 	}
